@@ -224,6 +224,10 @@ const KIND_TABLE: &[KindDef] = &[
     kd("mrecv", "RECV", Cls::MBuf, true),
     kd("connect", "CONNECT", Cls::Zero, false),
     kd("bind", "BIND", Cls::Zero, false),
+    // the same with Unix addresses (address storage = sockaddr_un + its length)
+    kd("connectu", "CONNECT", Cls::Zero, false),
+    kd("bindu", "BIND", Cls::Zero, false),
+    kd("sendtou", "SEND", Cls::Len, false),
     kd("listen", "LISTEN", Cls::Zero, false),
     kd("shutdown", "SHUTDOWN", Cls::Zero, false),
     kd("sockname", "URING_CMD", Cls::Zero, false),
@@ -1546,6 +1550,35 @@ impl LifeCase {
                 let it = fd.multishot_recv(pool);
                 let st = last_new_block(mark, res_blocks);
                 (Box::new(MIter { it: Box::pin(it), next: |it, cx| it.poll_next(cx).map(|o| o.map(|r| r.map(|b| b.len().to_string()))) }), st)
+            }
+            "connectu" | "bindu" | "sendtou" => {
+                let ua = if kind == "bindu" {
+                    std::os::unix::net::SocketAddr::from_pathname("/tmp/a10v-life.sock").unwrap()
+                } else {
+                    <std::os::unix::net::SocketAddr as std::os::linux::net::SocketAddrExt>::from_abstract_name(b"a10v-life").unwrap()
+                };
+                match kind {
+                    "connectu" => {
+                        let mark = track::next_id();
+                        let fut = fd.connect(ua);
+                        let st = last_new_block(mark, res_blocks);
+                        (fut_op(fut, unit0), st)
+                    }
+                    "bindu" => {
+                        let mark = track::next_id();
+                        let fut = fd.bind(ua);
+                        let st = last_new_block(mark, res_blocks);
+                        (fut_op(fut, unit0), st)
+                    }
+                    _ => {
+                        let buf: Vec<u8> = vec![0x34; 48];
+                        watch_buf(&buf);
+                        let mark = track::next_id();
+                        let fut = fd.send_to(buf, ua);
+                        let st = single_new_block(mark);
+                        (fut_op(fut, |n: usize| n.to_string()), st)
+                    }
+                }
             }
             "connect" => {
                 let mark = track::next_id();
